@@ -8,6 +8,7 @@ package main
 
 import (
 	"fmt"
+	"go/constant"
 	"go/token"
 	"go/types"
 	"sort"
@@ -606,10 +607,20 @@ func (p *upath) valueAt(v ssa.Value, idx int) ssa.Value {
 				if k := p.indexOf(u); k >= 0 && k <= idx {
 					at = k
 				}
+				found := false
 				for j := at; j >= 0 && j < len(p.Instrs); j-- {
 					if st, isSt := p.Instrs[j].(*ssa.Store); isSt && st.Addr == ssa.Value(cell) {
-						r, idx = st.Val, j
+						r, idx, found = st.Val, j, true
 						break
+					}
+					if p.Instrs[j] == ssa.Instruction(cell) {
+						break // the cell was created here: nothing stored since
+					}
+				}
+				if !found && cell.Parent() != nil {
+					// never assigned on this path: the zero value (a named result left alone by a bare return)
+					if z := zeroConstOf(u.Type()); z != nil {
+						return z
 					}
 				}
 			}
@@ -1044,7 +1055,11 @@ func enumPathsCfg(f *ssa.Function, limit int, cutLoops, noInline bool) ([]upath,
 					if known && knownVal != val {
 						continue // infeasible on this path
 					}
-					if cst, ok := cond.(*ssa.Const); ok && cst.Value != nil && (cst.Value.String() == "true" || cst.Value.String() == "false") {
+					cres := cond
+					if _, isC := cres.(*ssa.Const); !isC {
+						cres = cur.valueAt(cond, len(cur.Instrs)-1)
+					}
+					if cst, ok := cres.(*ssa.Const); ok && cst.Value != nil && (cst.Value.String() == "true" || cst.Value.String() == "false") {
 						if (cst.Value.String() == "true") != val {
 							continue // infeasible on this path
 						}
@@ -1700,4 +1715,22 @@ func (p *upath) siteAt(idx int) ssa.Instruction {
 		return nil
 	}
 	return best.Call
+}
+
+// zeroConstOf: the zero value of a basic, pointer, interface, channel, map, slice or function type as a constant.
+func zeroConstOf(t types.Type) ssa.Value {
+	switch u := t.Underlying().(type) {
+	case *types.Basic:
+		switch {
+		case u.Info()&types.IsBoolean != 0:
+			return ssa.NewConst(constant.MakeBool(false), t)
+		case u.Info()&types.IsInteger != 0:
+			return ssa.NewConst(constant.MakeInt64(0), t)
+		case u.Info()&types.IsString != 0:
+			return ssa.NewConst(constant.MakeString(""), t)
+		}
+	case *types.Pointer, *types.Interface, *types.Chan, *types.Map, *types.Slice, *types.Signature:
+		return ssa.NewConst(nil, t)
+	}
+	return nil
 }
